@@ -28,12 +28,13 @@ def hash_groups():
                        covers=['end'] + (['abort'] if n else [])))
     g('hash.rehash_n', ['C19', 'C03'], 'h_rehash_n', '__cstl_hash_rehash', replace=['cstl_clean_bucket'],
       what='sweep: <= n dirty buckets cleaned, progress >= n or completion, completion installs the pending geometry, sweep invariant',
-      shards=3, weight=4)
+      shards=1, weight=2)
     g('hash.rehash', ['C19', 'C03'], 'h_rehash', 'cstl_hash_rehash', replace=['__cstl_hash_rehash'],
       what='forced completion of a pending rehash; no-op otherwise')
     g('hash.get_bucket', ['C19', 'C03', 'C17'], 'h_get_bucket', 'cstl_hash_get_bucket',
       replace=['__cstl_hash_get_bucket', 'cstl_clean_bucket', '__cstl_hash_rehash'],
-      what='keyed access: <= 3 dirty buckets relocated, sweep advances or completes, one hash consultation when idle, bucket in range')
+      what='keyed access: <= 3 dirty buckets relocated, sweep advances or completes, one hash consultation when idle, bucket in range',
+      defines=['-DVF_BYTE_STAMPS'])
     g('hash.set_capacity', ['C16', 'C03'], 'h_set_capacity', '__cstl_hash_set_capacity',
       what='bucket array reallocation lands completely or changes nothing (allocation may fail)')
     g('hash.set_capacity_init', ['C16'], 'h_set_capacity', '__cstl_hash_set_capacity',
@@ -41,7 +42,7 @@ def hash_groups():
     for case, txt in ((1, 'request fits the current capacity'), (2, 'request needs a bigger bucket array')):
         G.append(Group('hash.resize.case%d' % case, ['C19', 'C16', 'C03'], 'P', S, 'h_resize', enforce='cstl_hash_resize',
                        replace=['cstl_hash_rehash'], sources=src, defines=['-DVF_G_resize', '-DVF_RESIZE_CASE=%d' % case],
-                       replay=True, timeout=1500, weight=5,
+                       replay=True, timeout=900, weight=2,
                        what='resize request in every table state incl. rehash pending (%s; the two cases are exhaustive): lands (effective geometry = request) or, on allocation failure, changes nothing' % txt))
     g('hash.resize_init', ['C19', 'C16', 'C03'], 'h_resize', 'cstl_hash_resize',
       replace=['cstl_hash_rehash'],
